@@ -21,6 +21,21 @@ Proof. apply existsb_app. Qed.
 Lemma in_fct_has_to evs : In (EErr FlowControlTimeout) evs -> has_to evs = true.
 Proof. intros H. apply existsb_exists. exists (EErr FlowControlTimeout). auto. Qed.
 
+Lemma filter_len_le {A} (f : A -> bool) l : (length (filter f l) <= length l)%nat.
+Proof. induction l as [|x l IH]; [cbn; lia|]. cbn [filter]. destruct (f x); cbn [length]; lia. Qed.
+
+Lemma filter_id_all {A} (f : A -> bool) l : filter f l = l -> Forall (fun x => f x = true) l.
+Proof.
+  induction l as [|x l IH]; [constructor|]. cbn [filter]. destruct (f x) eqn:E.
+  - intros H. injection H as H. constructor; [exact E|apply IH; exact H].
+  - intros H. exfalso. pose proof (filter_len_le f l) as Hl. rewrite H in Hl. cbn [length] in Hl. lia.
+Qed.
+
+Lemma filter_none_all {A} (f : A -> bool) l : filter f l = [] -> Forall (fun x => f x = false) l.
+Proof.
+  induction l as [|x l IH]; [constructor|]. cbn [filter]. destruct (f x) eqn:E; [discriminate|]. intros H. constructor; [exact E|apply IH; exact H].
+Qed.
+
 Section TokDir.
 Variables cS cR : cfg.
 Hypothesis HokS : params_ok (c_p cS).
@@ -73,28 +88,26 @@ Proof.
 Qed.
 
 (** **** the sender makes a transmit pass *)
-Lemma T_sender_tx sS sR chSR chRS H W W' t :
+Lemma T_sender_tx sS sR chSR chRS H W t :
   WF cS sS -> ST cS sS W H -> Tok sS sR chSR chRS W t ->
-  let r := process_tx cS sS in
-  let out := opt_list (tr_msg r) in
-  W' = W ++ pass_data cS sS ->
-  filter (dataf cR) (chSR ++ out) = filter (dataf cR) chSR ++ pass_data cS sS ->
-  has_to (tr_evs r) = true \/
-  (has_err (tr_evs r) = false /\
-   exists t', Tok (tr_s r) sR (chSR ++ out) chRS W' t').
+  has_to (tr_evs (process_tx cS sS)) = true \/
+  (has_err (tr_evs (process_tx cS sS)) = false /\
+   forall W', W' = W ++ pass_data cS sS ->
+     filter (dataf cR) (chSR ++ opt_list (tr_msg (process_tx cS sS))) = filter (dataf cR) chSR ++ pass_data cS sS ->
+     exists t', Tok (tr_s (process_tx cS sS)) sR (chSR ++ opt_list (tr_msg (process_tx cS sS))) chRS W' t').
 Proof.
-  intros Hwf HS HT r out HW' Hfil. pose proof HT as (HC & HX & HRX & Hineq & Hmb & Hch).
+  intros Hwf HS HT. pose proof HT as (HC & HX & HRX & Hineq & Hmb & Hch).
   destruct (SX_tx cS HokS bs bs_nonneg sS W H (ta t) Hwf HS HX (Tok_Pfc _ _ _ _ _ _ HT)) as [Hto|[Hne Hres]].
   { left. apply in_fct_has_to. exact Hto. }
-  right. split; [exact Hne|].
+  right. split; [exact Hne|]. intros W' HW' Hfil.
   unfold pass_data in *. destruct (tx_input cS sS) as [s1|] eqn:Ei.
   - destruct Hres as [HX' Hl'].
     exists {| tC := tC t; ta := ta t + granted sS; ti := ti t |}. unfold Tok. cbn [tC ta ti].
     split; [rewrite Hfil, HW', app_assoc, HC; reflexivity|]. split; [rewrite HW'; exact HX'|]. split; [exact HRX|].
-    split; [unfold granted at 2; fold r; rewrite Hl'; lia|]. split; [fold r; rewrite Hl'; discriminate|exact Hch].
+    split; [unfold granted at 2; rewrite Hl'; lia|]. split; [rewrite Hl'; discriminate|exact Hch].
   - destruct Hres as [HX' Hl']. rewrite app_nil_r in HW', Hfil. subst W'.
     exists t. unfold Tok. split; [rewrite Hfil; exact HC|]. split; [exact HX'|]. split; [exact HRX|].
-    split; [unfold granted in *; fold r; rewrite Hl'; exact Hineq|]. split; [fold r; rewrite Hl'; exact Hmb|exact Hch].
+    split; [unfold granted in *; rewrite Hl'; exact Hineq|]. split; [rewrite Hl'; exact Hmb|exact Hch].
 Qed.
 
 (** **** the sender layer does something else than a pass or a reception *)
@@ -137,7 +150,7 @@ Lemma T_sender_rx sS sR chSR f chRS W t :
   Tok (rr_s (process_rx cS sS f)) sR chSR chRS W t.
 Proof.
   intros (HC & HX & HRX & Hineq & Hmb & Hch) Hdata.
-  inversion Hch as [|? ? Hf Hch']; subst.
+  pose proof (Forall_inv Hch) as Hf. pose proof (Forall_inv_tail Hch) as Hch'. cbv beta in Hf.
   destruct (dataf cS f) eqn:Edf.
   - destruct (Hdata eq_refl) as [Hst Hl]. split; [discriminate|].
     assert (Hn : nfc (f :: chRS) = nfc chRS) by (unfold nfc; cbn [filter]; rewrite Edf; reflexivity).
@@ -152,23 +165,38 @@ Proof.
     split; [cbn [last_fc set RecordSet.set]; intros fc E; injection E as <-; cbn; auto|exact Hch'].
 Qed.
 
-(** **** the receiver makes a transmit pass: a pending request becomes a ContinueToSend in flight *)
-Lemma fc_frame_read m : make_flow_control cR FS_CTS = Some m -> fcR m /\ dataf cS m = false.
+(** a ContinueToSend in flight toward the sender leaves its reception untouched and reports nothing *)
+Lemma fc_rtok sS sR chSR f chRS W t : Tok sS sR chSR (f :: chRS) W t -> dataf cS f = false ->
+  rtok (rr_s (process_rx cS sS f)) = rtok sS /\ rr_evs (process_rx cS sS f) = [].
 Proof.
-  intros Hm. split.
-  - unfold make_flow_control, craft_fc_data in Hm.
-    pose proof HokR as (Hdl & _ & _ & Hstm & Hb & _).
-    rewrite (land_byte (p_blocksize (c_p cR))) in Hm by lia. rewrite (land_byte (p_stmin (c_p cR))) in Hm by lia.
-    change (Z.lor 48 (Z.land FS_CTS 15)) with (0x30 + 0) in Hm.
-    set (d := c_tx_prefix cR ++ [0x30 + 0; p_blocksize (c_p cR); p_stmin (c_p cR)]) in Hm.
-    assert (Hlen : 2 <= zlen d <= p_tx_dl (c_p cR)).
-    { subst d. rewrite zlen_app, !zlen_cons, zlen_nil. pose proof (in_ll_sizes _ Hdl). pose proof (plen_bounds cR). lia. }
-    rewrite (spec_frame_of_make cR HokR _ d Hlen) in Hm. injection Hm as <-.
-    destruct (spec_frame_data cR HokR (c_tx_id cR Physical) d Hlen) as [Hd _]; [intros; lia|].
-    unfold fcR. rewrite Hd. subst d. rewrite <- app_assoc. cbn [app].
+  intros (_ & _ & _ & _ & _ & Hch) Edf. pose proof (Forall_inv Hch) as Hf. cbv beta in Hf.
+  destruct Hf as [Hf|(x & Hdec & Hp)]; [congruence|].
+  rewrite (rx_fc_only_mailbox cS sS f x _ _ _ Hdec Hp). cbn [rr_s rr_evs mk_rr]. split; reflexivity.
+Qed.
+
+(** **** the receiver makes a transmit pass: a pending request becomes a ContinueToSend in flight *)
+Definition fc_frame : frame :=
+  spec_frame cR (Address.tx_arb_id (c_txa cR) Physical)
+    (Address.tx_prefix (c_txa cR) ++ [0x30 + FS_CTS; p_blocksize (c_p cR); p_stmin (c_p cR)]).
+
+Lemma fc_frame_read : fcR fc_frame /\ dataf cS fc_frame = false.
+Proof.
+  pose proof HokR as (Hdl & _ & _ & Hstm & Hb & _).
+  set (d := c_tx_prefix cR ++ [0x30 + 0; p_blocksize (c_p cR); p_stmin (c_p cR)]).
+  assert (Hlen : 2 <= zlen d <= p_tx_dl (c_p cR)).
+  { subst d. rewrite zlen_app, !zlen_cons, zlen_nil. pose proof (in_ll_sizes _ Hdl). pose proof (plen_bounds cR). lia. }
+  assert (Hmk : make_flow_control cR FS_CTS = Some fc_frame).
+  { unfold make_flow_control, craft_fc_data.
+    rewrite (land_byte (p_blocksize (c_p cR))) by lia. rewrite (land_byte (p_stmin (c_p cR))) by lia.
+    change (Z.lor 48 (Z.land FS_CTS 15)) with (0x30 + 0). fold d.
+    rewrite (spec_frame_of_make cR HokR _ d Hlen). reflexivity. }
+  split.
+  - destruct (spec_frame_data cR HokR (c_tx_id cR Physical) d Hlen) as [Hd _]; [intros; lia|].
+    unfold fcR, fc_frame. change (Address.tx_prefix (c_txa cR) ++ [48 + FS_CTS; p_blocksize (c_p cR); p_stmin (c_p cR)]) with d.
+    change (Address.tx_arb_id (c_txa cR) Physical) with (c_tx_id cR Physical). rewrite Hd. subst d. rewrite <- app_assoc. cbn [app].
     rewrite kS_eq. rewrite (decode_fc (c_tx_prefix cR) 0 _ _ _ _ eq_refl ltac:(lia) HstR).
     eexists. split; [reflexivity|]. reflexivity.
-  - unfold dataf. fold kS. rewrite kS_eq. exact (fc_not_data cR HokR FS_CTS m Hm).
+  - unfold dataf. fold kS. rewrite kS_eq. exact (fc_not_data cR HokR FS_CTS fc_frame Hmk).
 Qed.
 
 Lemma T_recv_tx sS sR chSR chRS W t :
@@ -178,21 +206,347 @@ Lemma T_recv_tx sS sR chSR chRS W t :
   filter (dataf cS) (chRS ++ out) = filter (dataf cS) chRS ++ pass_data cR sR ->
   Tok sS (tr_s r) chSR (chRS ++ out) W t.
 Proof.
-  intros Hwf (HC & HX & HRX & Hineq & Hmb & Hch) r out Hfil.
+  intros Hwf (HC & HX & HRX & Hineq & Hmb & Hch). cbv zeta. intros Hfil.
   pose proof HRX as (Hgi & Hpend & Hst).
-  assert (Hfo : filter (dataf cS) out = pass_data cR sR).
+  assert (Hfo : filter (dataf cS) (opt_list (tr_msg (process_tx cR sR))) = pass_data cR sR).
   { rewrite filter_app in Hfil. apply (app_inv_head _ _ _ Hfil). }
-  unfold pass_data in Hfo. subst r out.
+  unfold pass_data in Hfo.
   destruct (tx_input cR sR) as [s1|] eqn:Ei.
   - (* an ordinary pass: only data frames leave; the reception view is kept, a pending request at most dropped (listen mode) *)
     pose proof (process_tx_by_input cR sR) as Hp. rewrite Ei in Hp.
-    assert (Hs1 : rtok s1 = (rx_state sR, rx_block_counter sR, rx_frame_length sR, rx_buffer sR, pending_fc s1, pending_fc_status sR) /\
+    assert (Hs1 : rx_state s1 = rx_state sR /\ rx_block_counter s1 = rx_block_counter sR /\ rx_frame_length s1 = rx_frame_length sR /\
+                  rx_buffer s1 = rx_buffer sR /\ pending_fc_status s1 = pending_fc_status sR /\
                   (pending_fc s1 = pending_fc sR \/ pending_fc s1 = false)).
-    { revert Ei. unfold tx_input. destruct (pending_fc sR) eqn:Ep; [|intros E; injection E as <-; unfold rtok; rewrite Ep; auto].
-      cbv zeta. destruct (negb (p_listen (c_p cR))); [discriminate|]. intros E; injection E as <-. destruct (opt_eqb _ _); unfold rtok; cbn; auto. }
-    destruct Hs1 as [Hr1 Hp1].
-    assert (Hr : rtok (tr_s (process_tx cR sR)) = rtok s1).
-    { rewrite Hp. apply rxv_rtok. apply tx_preserves_rx. }
-    assert (Hpf : pending_fc (tr_s (process_tx cR sR)) = pending_fc s1) by (unfold rtok in Hr; injection Hr; auto).
-    assert (Hall : Forall (fun f => dataf cS f = true) (opt_list (tr_msg (process_tx cR sR)))).
-    { rewrite <- Hfo. clear. induction (opt_list _) as [|f l IH]; [constructor|]. cbn [filter]. destruct (dataf cS f) eqn:E; [constructor; [|apply IH]|apply IH]. Abort.
+    { revert Ei. unfold tx_input. destruct (pending_fc sR) eqn:Ep; [|intros E; injection E as <-; rewrite Ep; auto 10].
+      cbv zeta. destruct (negb (p_listen (c_p cR))); [discriminate|]. intros E; injection E as <-. destruct (opt_eqb _ _); cbn; auto 10. }
+    destruct Hs1 as (A1 & A2 & A3 & A4 & A5 & A6).
+    assert (Hr : rtok (tr_s (process_tx cR sR)) = rtok s1) by (rewrite Hp; apply rxv_rtok, tx_preserves_rx).
+    unfold rtok in Hr. injection Hr as B1 B2 B3 B4 B5 B6.
+    assert (Hall : Forall (fun f => dataf cS f = true) (opt_list (tr_msg (process_tx cR sR)))) by (apply filter_id_all; exact Hfo).
+    assert (Hn : nfc (opt_list (tr_msg (process_tx cR sR))) = 0).
+    { unfold nfc. replace (filter _ _) with (@nil frame); [reflexivity|]. symmetry.
+      clear -Hall. induction Hall as [|f l Hf _ IH]; [reflexivity|]. cbn [filter]. rewrite Hf. exact IH. }
+    split; [exact HC|]. split; [exact HX|].
+    split. { unfold RXI in *. rewrite B1, B2, B3, B4, B5, B6, A1, A2, A3, A4, A5.
+             split; [exact Hgi|]. split; [|exact Hst]. intros Hq. apply Hpend. destruct A6 as [E|E]; congruence. }
+    split. { rewrite nfc_app, Hn, B5. destruct A6 as [-> | ->]; [lia|]. unfold b2z in *. destruct (pending_fc sR); lia. }
+    split; [exact Hmb|]. apply Forall_app. split; [exact Hch|]. eapply Forall_impl; [|exact Hall]. intros f Hf; left; exact Hf.
+  - (* the pass only answers with the Flow Control that was requested *)
+    assert (Hno : Forall (fun f => dataf cS f = false) (opt_list (tr_msg (process_tx cR sR)))) by (apply filter_none_all; exact Hfo).
+    assert (Hpl : pending_fc sR = true /\ p_listen (c_p cR) = false).
+    { revert Ei. unfold tx_input. destruct (pending_fc sR); [|discriminate]. cbv zeta. destruct (p_listen (c_p cR)); [discriminate|auto]. }
+    destruct Hpl as [Hp1 Hl1].
+    destruct (fc_answer cR sR FS_CTS HokR Hl1 Hp1 (Hpend Hp1) (or_introl eq_refl)) as (Hmsg & _ & Hp' & _ & R1 & _ & R3).
+    fold fc_frame in Hmsg. set (fm := fc_frame) in *. rewrite Hmsg in *. cbn [opt_list] in *.
+    destruct fc_frame_read as [Hfr Hfd]. fold fm in Hfr, Hfd.
+    assert (Hn : nfc [fm] = 1) by (unfold nfc; cbn [filter]; rewrite Hfd; reflexivity).
+    assert (Hrt : rx_state (tr_s (process_tx cR sR)) = rx_state sR /\ rx_block_counter (tr_s (process_tx cR sR)) = rx_block_counter sR /\
+                  rx_frame_length (tr_s (process_tx cR sR)) = rx_frame_length sR /\ rx_buffer (tr_s (process_tx cR sR)) = rx_buffer sR).
+    { unfold process_tx. rewrite Hp1. cbv zeta. rewrite Hl1. cbn [negb].
+      destruct (opt_eqb _ _); (destruct (pending_fc_status _) as [st|]; [destruct (make_flow_control cR st)|]); cbn [tr_s mk_tr mk_crash]; repeat split. }
+    destruct Hrt as (B1 & B2 & B3 & B4).
+    split; [exact HC|]. split; [exact HX|].
+    split. { unfold RXI in *. rewrite B1, B2, B3, B4, Hp'. split; [exact Hgi|]. split; [discriminate|exact Hst]. }
+    split. { rewrite nfc_app, Hn, Hp', Hp1 in *. unfold b2z in *. lia. }
+    split; [exact Hmb|]. apply Forall_app. split; [exact Hch|]. constructor; [right; exact Hfr|constructor].
+Qed.
+
+(** **** the receiver takes the oldest frame toward it *)
+Lemma T_recv_rx sS sR f chSR chRS W t S cur D :
+  Tok sS sR (f :: chSR) chRS W t ->
+  (dataf cR f = true -> script_ok cR S /\ RT cR sR cur D /\ expected cur S = Some (f_data f)) ->
+  (dataf cR f = false -> rtok (rr_s (process_rx cR sR f)) = rtok sR) ->
+  exists t', Tok sS (rr_s (process_rx cR sR f)) chSR chRS W t'.
+Proof.
+  intros (HC & HX & HRX & Hineq & Hmb & Hch) Hdata Hfc.
+  destruct (dataf cR f) eqn:Edf.
+  - destruct (Hdata eq_refl) as (HS & HRT & Hexp).
+    destruct (RXI_data cR sR cur S D f (tC t) (ti t) HS HRT Hexp HRX) as (HRX' & Hle & Hp & _).
+    exists {| tC := tC t ++ [f]; ta := ta t; ti := sc_pts (scan (c_rx_prefix_size cR) (p_blocksize (c_p cR)) (tC t ++ [f])) |}.
+    unfold Tok. cbn [tC ta ti].
+    split; [rewrite <- HC; cbn [filter]; rewrite Edf, <- app_assoc; reflexivity|]. split; [exact HX|]. split; [exact HRX'|].
+    split; [lia|]. split; [exact Hmb|exact Hch].
+  - exists t. specialize (Hfc eq_refl).
+    assert (Ep : pending_fc (rr_s (process_rx cR sR f)) = pending_fc sR) by (unfold rtok in Hfc; injection Hfc; auto).
+    split; [rewrite <- HC; cbn [filter]; rewrite Edf; reflexivity|]. split; [exact HX|]. split; [exact (RXI_rtok cR _ _ _ _ Hfc HRX)|].
+    split; [rewrite Ep; exact Hineq|]. split; [exact Hmb|exact Hch].
+Qed.
+
+Lemma Tok_init ta0 tb0 : Tok (init_layer cS ta0) (init_layer cR tb0) [] [] [] {| tC := []; ta := 0; ti := 0 |}.
+Proof.
+  split; [reflexivity|]. split; [cbn; auto|]. split; [cbn; repeat split; try reflexivity; discriminate|].
+  split; [cbn; lia|]. split; [cbn; discriminate|constructor].
+Qed.
+
+End TokDir.
+
+(** *** one layer X linked with its peer Y: both of its roles at once *)
+Section Layer.
+Variables cX cY : cfg.
+Hypothesis HokX : params_ok (c_p cX).
+Hypothesis HokY : params_ok (c_p cY).
+Hypothesis Hxy : linked cX cY.
+Hypothesis Hyx : linked cY cX.
+Hypothesis HstX : stmin_valid (p_stmin (c_p cX)) = true.
+Hypothesis HstY : stmin_valid (p_stmin (c_p cY)) = true.
+
+(** what is known about the pair seen from X: its own state, the peer's, the frames in flight both ways *)
+Definition LInv (sX sY : layer) (chXY chYX : list frame) (gxy gyx : dg) (txy tyx : tg) : Prop :=
+  WF cX sX /\
+  Dir cX cY sX sY chXY gxy /\ Dir cY cX sY sX chYX gyx /\
+  Tok cX cY sX sY chXY chYX (dW gxy) txy /\ Tok cY cX sY sX chYX chXY (dW gyx) tyx.
+
+Lemma layer_step sX sY chXY chYX gxy gyx txy tyx m :
+  LInv sX sY chXY chYX gxy gyx txy tyx -> op_ok m -> not_rx m -> send_fits cY m ->
+  has_to (snd (mstep cX sX m)) = true \/
+  (has_err (snd (mstep cX sX m)) = false /\
+   exists gxy' gyx' txy' tyx',
+     LInv (fst (mstep cX sX m)) sY (chXY ++ out_frames (snd (mstep cX sX m))) chYX gxy' gyx' txy' tyx' /\
+     map m_p (dH gxy') = map m_p (dH gxy) ++ sent_payload cX sX m /\ dR gxy' = dR gxy /\
+     dH gyx' = dH gyx /\ dR gyx' = dR gyx ++ recv_payload sX m).
+Proof.
+  intros (Hwf & Dxy & Dyx & Txy & Tyx) Hm Hnr Hfit.
+  pose proof (Dir_sender cX cY HokX Hxy sX sY chXY gxy m Hwf Dxy Hm Hfit) as HS.
+  pose proof (Dir_receiver cY cX sY sX chYX gyx m Dyx Hm Hnr) as HR.
+  pose proof (WF_mstep cX sX m Hwf) as Hw'.
+  pose proof (mstep_out cX sX m HokX Hwf) as Hout.
+  (* once the step is known to be free of errors, both directions keep their transfer invariant *)
+  assert (Hdirs : has_err (snd (mstep cX sX m)) = false ->
+            exists gxy' gyx', Dir cX cY (fst (mstep cX sX m)) sY (chXY ++ out_frames (snd (mstep cX sX m))) gxy' /\
+              Dir cY cX sY (fst (mstep cX sX m)) chYX gyx' /\
+              map m_p (dH gxy') = map m_p (dH gxy) ++ sent_payload cX sX m /\ dR gxy' = dR gxy /\
+              dW gxy' = dW gxy ++ xdata cX sX m /\
+              filter (dataf cY) (chXY ++ out_frames (snd (mstep cX sX m))) = filter (dataf cY) chXY ++ xdata cX sX m /\
+              dH gyx' = dH gyx /\ dR gyx' = dR gyx ++ recv_payload sX m /\ dW gyx' = dW gyx).
+  { intros Hne. destruct HS as [He|(gxy' & D1 & E1 & E2 & E3 & E4)]; [congruence|].
+    destruct HR as [He|(gyx' & D2 & F1 & F2 & F3)]; [congruence|].
+    exists gxy', gyx'. auto 12. }
+  destruct m; try (destruct Hm; fail); try (destruct Hnr; fail).
+  - (* timeout check of the reception *)
+    cbn [mstep fst snd] in *. destruct (check_fields sX) as [Hto|[Hev Hs]]; [left; exact Hto|right].
+    rewrite Hev in *. split; [reflexivity|]. destruct (Hdirs eq_refl) as (gxy' & gyx' & D1 & D2 & E1 & E2 & E3 & E4 & F1 & F2 & F3).
+    cbn [xdata] in E3, E4. rewrite app_nil_r in E3. cbn [out_frames flat_map] in *. rewrite Hs in *.
+    exists gxy', gyx', txy, tyx. split; [|auto]. split; [exact Hwf|]. split; [exact D1|]. split; [exact D2|].
+    rewrite E3, F3, app_nil_r. split; assumption.
+  - (* limiter update *)
+    destruct (quiet_fields cX sX MLim I) as (Hev & Hst & Hl & Hrt). right. rewrite Hev in *. split; [reflexivity|].
+    destruct (Hdirs eq_refl) as (gxy' & gyx' & D1 & D2 & E1 & E2 & E3 & E4 & F1 & F2 & F3).
+    cbn [xdata] in E3. rewrite app_nil_r in E3. cbn [out_frames flat_map] in *.
+    exists gxy', gyx', txy, tyx. split; [|auto]. split; [exact Hw'|]. split; [exact D1|]. split; [exact D2|].
+    rewrite E3, F3, app_nil_r. split; [apply (Tok_same cX cY sX sY); auto|apply (Tok_same cY cX sY sX); auto].
+  - (* a transmit pass *)
+    cbn [mstep fst snd] in *.
+    pose proof (process_tx_nocrash cX sX HokX Hwf) as Hc. unfold tx_events in *. rewrite Hc in *.
+    destruct (T_sender_tx cX cY HokX HokY Hxy sX sY chXY chYX (dH gxy) (dW gxy) txy Hwf (Dir_ST cX cY _ _ _ _ Dxy) Txy) as [Hto|[Hne HT]].
+    { left. rewrite has_to_app, Hto. reflexivity. }
+    right.
+    assert (Hne' : has_err (tr_evs (process_tx cX sX) ++ match tr_msg (process_tx cX sX) with Some m => [ETx m] | None => [] end) = false).
+    { rewrite has_err_app, Hne. destruct (tr_msg (process_tx cX sX)); reflexivity. }
+    split; [exact Hne'|].
+    destruct (Hdirs Hne') as (gxy' & gyx' & D1 & D2 & E1 & E2 & E3 & E4 & F1 & F2 & F3).
+    cbn [xdata] in E3, E4. rewrite Hout in *.
+    destruct (HT (dW gxy') E3 E4) as (txy' & Txy').
+    pose proof (T_recv_tx cY cX HokX Hxy HstX sY sX chYX chXY (dW gyx) tyx Hwf Tyx E4) as Tyx'.
+    exists gxy', gyx', txy', tyx. split; [|auto]. split; [exact Hw'|]. split; [exact D1|]. split; [exact D2|].
+    rewrite F3. split; assumption.
+  - (* send() *)
+    destruct (quiet_fields cX sX (MSend g size t) I) as (Hev & Hst & Hl & Hrt). right. rewrite Hev in *. split; [reflexivity|].
+    destruct (Hdirs eq_refl) as (gxy' & gyx' & D1 & D2 & E1 & E2 & E3 & E4 & F1 & F2 & F3).
+    cbn [xdata] in E3. rewrite app_nil_r in E3. cbn [out_frames flat_map] in *.
+    exists gxy', gyx', txy, tyx. split; [|auto]. split; [exact Hw'|]. split; [exact D1|]. split; [exact D2|].
+    rewrite E3, F3, app_nil_r. split; [apply (Tok_same cX cY sX sY); auto|apply (Tok_same cY cX sY sX); auto].
+  - (* recv() *)
+    destruct (quiet_fields cX sX MRecv I) as (Hev & Hst & Hl & Hrt). right. rewrite Hev in *. split; [reflexivity|].
+    destruct (Hdirs eq_refl) as (gxy' & gyx' & D1 & D2 & E1 & E2 & E3 & E4 & F1 & F2 & F3).
+    cbn [xdata] in E3. rewrite app_nil_r in E3. cbn [out_frames flat_map] in *.
+    exists gxy', gyx', txy, tyx. split; [|auto]. split; [exact Hw'|]. split; [exact D1|]. split; [exact D2|].
+    rewrite E3, F3, app_nil_r. split; [apply (Tok_same cX cY sX sY); auto|apply (Tok_same cY cX sY sX); auto].
+  - (* the clock moves *)
+    destruct (quiet_fields cX sX (MTick d) I) as (Hev & Hst & Hl & Hrt). right. rewrite Hev in *. split; [reflexivity|].
+    destruct (Hdirs eq_refl) as (gxy' & gyx' & D1 & D2 & E1 & E2 & E3 & E4 & F1 & F2 & F3).
+    cbn [xdata] in E3. rewrite app_nil_r in E3. cbn [out_frames flat_map] in *.
+    exists gxy', gyx', txy, tyx. split; [|auto]. split; [exact Hw'|]. split; [exact D1|]. split; [exact D2|].
+    rewrite E3, F3, app_nil_r. split; [apply (Tok_same cX cY sX sY); auto|apply (Tok_same cY cX sY sX); auto].
+Qed.
+
+Lemma dataf_not_fc c f : dataf c f = true ->
+  forall d fs b st, pdu_decode (f_data f) (c_rx_prefix_size c) = Some d -> d_pdu d <> PFC fs b st.
+Proof.
+  unfold dataf, is_data. intros H d fs b st Hd. rewrite Hd in H. intros E. rewrite E in H. discriminate.
+Qed.
+
+Lemma layer_pop sX sY chXY f chYX gxy gyx txy tyx :
+  LInv sX sY chXY (f :: chYX) gxy gyx txy tyx ->
+  c_is_for_me cX f = true /\
+  has_err (snd (mstep cX sX (MRx f))) = false /\
+  exists gxy' gyx' txy' tyx',
+    LInv (fst (mstep cX sX (MRx f))) sY chXY chYX gxy' gyx' txy' tyx' /\
+    map m_p (dH gxy') = map m_p (dH gxy) /\ dR gxy' = dR gxy /\ dH gyx' = dH gyx /\ dR gyx' = dR gyx.
+Proof.
+  intros (Hwf & Dxy & Dyx & Txy & Tyx).
+  destruct (Dir_pop cY cX Hyx sY sX f chYX gyx Dyx) as [Hfor HR]. split; [exact Hfor|].
+  pose proof (Dir_sender cX cY HokX Hxy sX sY chXY gxy (MRx f) Hwf Dxy I I) as HS.
+  rewrite (mstep_out cX sX (MRx f) HokX Hwf), app_nil_r in HS.
+  pose proof (WF_mstep cX sX (MRx f) Hwf) as Hw'.
+  cbn [mstep fst snd] in *.
+  assert (Hev : rr_evs (process_rx cX sX f) = []).
+  { destruct (dataf cX f) eqn:Edf.
+    - destruct (Dir_expected cY cX sY sX f chYX gyx Dyx Edf) as (HSc & HRT & Hexp).
+      exact (proj1 (RT_data cX sX (dcur gyx) (dS gyx) (rx_queue sX) f HSc HRT Hexp)).
+    - exact (proj2 (fc_rtok cX cY sX sY chXY f chYX (dW gxy) txy Txy Edf)). }
+  rewrite Hev in *. split; [reflexivity|].
+  destruct HS as [He|(gxy' & D1 & E1 & E2 & E3 & _)]; [discriminate|].
+  destruct HR as [He|(gyx' & D2 & F1 & F2 & F3)]; [discriminate|].
+  cbn [sent_payload xdata] in E1, E3. rewrite app_nil_r in E1, E3.
+  assert (Hdata : dataf cX f = true -> stok (rr_s (process_rx cX sX f)) = stok sX /\
+            (last_fc (rr_s (process_rx cX sX f)) = last_fc sX \/ last_fc (rr_s (process_rx cX sX f)) = None)).
+  { intros Edf. destruct (rx_data_preserves_tx cX sX f (dataf_not_fc cX f Edf)) as [Hv Hl]. split; [apply txv_stok; exact Hv|exact Hl]. }
+  destruct (T_sender_rx cX cY sX sY chXY f chYX (dW gxy) txy Txy Hdata) as [_ Txy'].
+  destruct (T_recv_rx cY cX sY sX f chYX chXY (dW gyx) tyx (dS gyx) (dcur gyx) (rx_queue sX) Tyx
+              (fun Edf => Dir_expected cY cX sY sX f chYX gyx Dyx Edf)
+              (fun Edf => proj1 (fc_rtok cX cY sX sY chXY f chYX (dW gxy) txy Txy Edf))) as (tyx' & Tyx').
+  exists gxy', gyx', txy, tyx'. split; [|auto]. split; [exact Hw'|]. split; [exact D1|]. split; [exact D2|].
+  rewrite E3, F3. split; assumption.
+Qed.
+
+End Layer.
+
+(** *** the joint system *)
+Definition jev_to (e : jev) : bool := match e with JE _ e => is_timeout e | _ => false end.
+Definition jto (tr : list jev) : bool := existsb jev_to tr.
+
+Lemma jto_app a b : jto (a ++ b) = jto a || jto b.
+Proof. apply existsb_app. Qed.
+Lemma jto_events x evs : jto (map (JE x) evs) = has_to evs.
+Proof. induction evs as [|e r IH]; [reflexivity|]. unfold jto, has_to in *. cbn [map existsb]. rewrite IH. reflexivity. Qed.
+Lemma jto_obs x c s m : jto (user_obs x c s m) = false.
+Proof.
+  destruct m; try reflexivity; cbn.
+  - destruct (snd (send c s g size t)); reflexivity.
+  - destruct (snd (recv s)); reflexivity.
+Qed.
+
+Section JointTok.
+Variables ca cb : cfg.
+Hypothesis Hoka : params_ok (c_p ca).
+Hypothesis Hokb : params_ok (c_p cb).
+Hypothesis Hab : linked ca cb.
+Hypothesis Hba : linked cb ca.
+Hypothesis Hsta : stmin_valid (p_stmin (c_p ca)) = true.
+Hypothesis Hstb : stmin_valid (p_stmin (c_p cb)) = true.
+
+Definition JInvT (n : net) (gab gba : dg) (tab tba : tg) : Prop :=
+  LInv ca cb (nA n) (nB n) (inB n) (inA n) gab gba tab tba /\ WF cb (nB n).
+
+Lemma JInvT_swap n gab gba tab tba : JInvT n gab gba tab tba ->
+  LInv cb ca (nB n) (nA n) (inA n) (inB n) gba gab tba tab /\ WF ca (nA n).
+Proof. intros ((Hwa & D1 & D2 & T1 & T2) & Hwb). split; [split; [exact Hwb|auto]|exact Hwa]. Qed.
+
+Lemma jstep_invT n gab gba tab tba tr0 o :
+  JInvT n gab gba tab tba -> Obs tr0 gab gba -> jop_ok ca cb o ->
+  jto (snd (jstep ca cb n o)) = true \/
+  (jerr (snd (jstep ca cb n o)) = false /\
+   exists gab' gba' tab' tba', JInvT (fst (jstep ca cb n o)) gab' gba' tab' tba' /\ Obs (tr0 ++ snd (jstep ca cb n o)) gab' gba').
+Proof.
+  intros HJ (O1 & O2 & O3 & O4) Hop.
+  destruct o as [[|] m|[|]]; cbn [jstep cfg_of lay inbox].
+  - (* a micro-step of A *)
+    destruct Hop as (Hm & Hnr & Hfit). cbn [other cfg_of] in Hfit. destruct HJ as [HL Hwb].
+    pose proof (layer_step ca cb Hoka Hokb Hab Hsta _ _ _ _ _ _ _ _ m HL Hm Hnr Hfit) as Hs.
+    destruct (mstep ca (nA n) m) as [s' evs]. cbn [fst snd] in *.
+    rewrite jto_app, jto_events, jto_obs, orb_false_r, jerr_app, jerr_events, jerr_obs, orb_false_r.
+    destruct Hs as [Hto|(Hne & gab' & gba' & tab' & tba' & HL' & E1 & E2 & E3 & E4)]; [left; exact Hto|right].
+    split; [exact Hne|]. exists gab', gba', tab', tba'.
+    cbn [fst snd push_out set_lay set_inbox inbox other nA nB inA inB]. split; [split; [exact HL'|exact Hwb]|].
+    unfold Obs. rewrite !sent_of_app, !recv_of_app, !sent_of_events, !recv_of_events, !sent_of_obs, !recv_of_obs. cbn [side_eqb app].
+    rewrite !app_nil_r. repeat split; congruence.
+  - (* a micro-step of B *)
+    destruct Hop as (Hm & Hnr & Hfit). cbn [other cfg_of] in Hfit. destruct (JInvT_swap _ _ _ _ _ HJ) as [HL Hwa].
+    pose proof (layer_step cb ca Hokb Hoka Hba Hstb _ _ _ _ _ _ _ _ m HL Hm Hnr Hfit) as Hs.
+    destruct (mstep cb (nB n) m) as [s' evs]. cbn [fst snd] in *.
+    rewrite jto_app, jto_events, jto_obs, orb_false_r, jerr_app, jerr_events, jerr_obs, orb_false_r.
+    destruct Hs as [Hto|(Hne & gba' & gab' & tba' & tab' & HL' & E1 & E2 & E3 & E4)]; [left; exact Hto|right].
+    split; [exact Hne|]. exists gab', gba', tab', tba'.
+    cbn [fst snd push_out set_lay set_inbox inbox other nA nB inA inB].
+    destruct HL' as (Hw' & D1 & D2 & T1 & T2).
+    split; [split; [split; [exact Hwa|auto]|exact Hw']|].
+    unfold Obs. rewrite !sent_of_app, !recv_of_app, !sent_of_events, !recv_of_events, !sent_of_obs, !recv_of_obs. cbn [side_eqb app].
+    rewrite !app_nil_r. repeat split; congruence.
+  - (* A's reception loop takes a frame *)
+    destruct HJ as [HL Hwb].
+    destruct (inA n) as [|f rest] eqn:Ein.
+    { right. split; [reflexivity|]. exists gab, gba, tab, tba. cbn [fst snd]. rewrite app_nil_r.
+      split; [split; [rewrite Ein; exact HL|exact Hwb]|repeat split; assumption]. }
+    destruct (layer_pop ca cb Hoka Hab Hba _ _ _ f rest _ _ _ _ HL) as (Hfor & Hne & gab' & gba' & tab' & tba' & HL' & E1 & E2 & E3 & E4).
+    rewrite Hfor. destruct (mstep ca (nA n) (MRx f)) as [s' evs]. cbn [fst snd] in *.
+    right. rewrite jerr_events. split; [exact Hne|]. exists gab', gba', tab', tba'.
+    cbn [fst snd set_lay set_inbox nA nB inA inB]. split; [split; [exact HL'|exact Hwb]|].
+    unfold Obs. rewrite !sent_of_app, !recv_of_app, !sent_of_events, !recv_of_events, !app_nil_r. repeat split; congruence.
+  - (* B's reception loop takes a frame *)
+    destruct (JInvT_swap _ _ _ _ _ HJ) as [HL Hwa].
+    destruct (inB n) as [|f rest] eqn:Ein.
+    { right. split; [reflexivity|]. exists gab, gba, tab, tba. cbn [fst snd]. rewrite app_nil_r.
+      split; [exact HJ|repeat split; assumption]. }
+    destruct (layer_pop cb ca Hokb Hba Hab _ _ _ f rest _ _ _ _ HL) as (Hfor & Hne & gba' & gab' & tba' & tab' & HL' & E1 & E2 & E3 & E4).
+    rewrite Hfor. destruct (mstep cb (nB n) (MRx f)) as [s' evs]. cbn [fst snd] in *.
+    right. rewrite jerr_events. split; [exact Hne|]. exists gab', gba', tab', tba'.
+    cbn [fst snd set_lay set_inbox nA nB inA inB]. destruct HL' as (Hw' & D1 & D2 & T1 & T2).
+    split; [split; [split; [exact Hwa|auto]|exact Hw']|].
+    unfold Obs. rewrite !sent_of_app, !recv_of_app, !sent_of_events, !recv_of_events, !app_nil_r. repeat split; congruence.
+Qed.
+
+Theorem jrun_invT : forall ops n gab gba tab tba tr0,
+  JInvT n gab gba tab tba -> Obs tr0 gab gba -> Forall (jop_ok ca cb) ops ->
+  jto (snd (jrun ca cb n ops)) = true \/
+  (jerr (snd (jrun ca cb n ops)) = false /\
+   exists gab' gba' tab' tba', JInvT (fst (jrun ca cb n ops)) gab' gba' tab' tba' /\ Obs (tr0 ++ snd (jrun ca cb n ops)) gab' gba').
+Proof.
+  induction ops as [|o rest IH]; intros n gab gba tab tba tr0 HI HO Hops; cbn [jrun].
+  - right. split; [reflexivity|]. exists gab, gba, tab, tba. cbn [fst snd]. rewrite app_nil_r. split; assumption.
+  - inversion Hops as [|? ? Ho Hrest]; subst.
+    pose proof (jstep_invT n gab gba tab tba tr0 o HI HO Ho) as Hs.
+    destruct (jstep ca cb n o) as [n1 e1]. cbn [fst snd] in Hs.
+    destruct Hs as [Hto|(Hne & gab1 & gba1 & tab1 & tba1 & HI1 & HO1)].
+    { left. destruct (jrun ca cb n1 rest) as [n2 e2]. cbn [snd]. rewrite jto_app, Hto. reflexivity. }
+    specialize (IH n1 gab1 gba1 tab1 tba1 (tr0 ++ e1) HI1 HO1 Hrest).
+    destruct (jrun ca cb n1 rest) as [n2 e2]. cbn [fst snd] in *.
+    destruct IH as [Hto|(Hne2 & gab2 & gba2 & tab2 & tba2 & HI2 & HO2)].
+    + left. rewrite jto_app, Hto. apply orb_true_r.
+    + right. split; [rewrite jerr_app, Hne, Hne2; reflexivity|]. exists gab2, gba2, tab2, tba2. split; [exact HI2|]. rewrite app_assoc. exact HO2.
+Qed.
+
+Definition t0 : tg := {| tC := []; ta := 0; ti := 0 |}.
+
+Lemma JInvT_init ta tb : JInvT (init_net ca cb ta tb) g0 g0 t0 t0.
+Proof.
+  split; [|apply WF_init]. split; [apply WF_init|]. split; [apply Dir_init|]. split; [apply Dir_init|].
+  split; apply Tok_init.
+Qed.
+
+(** Unless a deadline error (N_Bs: FlowControlTimeoutError, N_Cr: ConsecutiveFrameTimeoutError) has been
+    reported, NO error has been reported at all, and the transfer statement holds.  From the initial state,
+    every interleaving. *)
+Theorem joint_only_deadlines ta tb ops : Forall (jop_ok ca cb) ops ->
+  let n := fst (jrun ca cb (init_net ca cb ta tb) ops) in
+  let tr := snd (jrun ca cb (init_net ca cb ta tb) ops) in
+  jto tr = true \/
+  (jerr tr = false /\
+   (exists later, sent_of SA tr = (recv_of SB tr ++ rx_queue (nB n)) ++ later) /\
+   (exists later, sent_of SB tr = (recv_of SA tr ++ rx_queue (nA n)) ++ later) /\
+   (at_rest n -> sent_of SA tr = recv_of SB tr ++ rx_queue (nB n) /\
+                 sent_of SB tr = recv_of SA tr ++ rx_queue (nA n))).
+Proof.
+  intros Hops. cbv zeta.
+  assert (HO0 : Obs [] g0 g0) by (repeat split).
+  destruct (jrun_invT ops _ g0 g0 t0 t0 [] (JInvT_init ta tb) HO0 Hops)
+    as [Hto|(Hne & gab & gba & tab & tba & ((Hwa & Dab & Dba & _) & Hwb) & (O1 & O2 & O3 & O4))]; [left; exact Hto|right].
+  cbn [app] in *. split; [exact Hne|]. split; [|split].
+  - destruct (Dir_prefix ca cb _ _ _ _ Dab) as [tl Htl]. exists tl. rewrite O1, O2. exact Htl.
+  - destruct (Dir_prefix cb ca _ _ _ _ Dba) as [tl Htl]. exists tl. rewrite O3, O4. exact Htl.
+  - intros (Ea & Eb & A1 & A2 & A3 & B1 & B2 & B3). rewrite Eb in Dab. rewrite Ea in Dba.
+    rewrite O1, O2, O3, O4. split; symmetry.
+    + exact (Dir_rest ca cb _ _ _ Dab A1 A2 B3).
+    + exact (Dir_rest cb ca _ _ _ Dba B1 B2 A3).
+Qed.
+
+End JointTok.
